@@ -1,6 +1,6 @@
 \* C07 negative: the reset list without "opn" (expected: violation for q, opn, vars, ext; none for hdr, rt)
 CONSTANTS
-  Requests <- RequestsConc
+  Requests <- RequestsNeg
   ResetFields <- No_opn
   ResetEarly = FALSE
   CacheKey = "full"
